@@ -1,14 +1,21 @@
 #!/bin/sh
-# usage: seed_eval.sh <patch.diff> <check id>... : applies a seeded change to /repo, runs the quick checks, reverts.
+# usage: seed_eval.sh <patch.diff> <check id>...
+# Evaluates a seeded change WITHOUT touching /repo: a scratch worktree of /repo gets the patch, a scratch copy of the harness
+# is built against it, the quick checks run with VERIF_HARNESS / VERIF_EVIDENCE pointing at the scratch copies; everything
+# is removed afterwards.
 set -u
-P="$1"; shift
-cd /repo || exit 2
-git apply --check "$P" || { echo "patch does not apply"; exit 2; }
-git apply "$P"
+P=$(readlink -f "$1"); shift
+D=/tmp/seval-$$
+mkdir -p $D/evidence
+git -C /repo worktree add --detach $D/repo HEAD >/dev/null 2>&1 || { echo "cannot create worktree"; exit 2; }
+cleanup() { git -C /repo worktree remove --force $D/repo >/dev/null 2>&1; rm -rf $D; }
+trap cleanup EXIT
+( cd $D/repo && git apply --check "$P" && git apply "$P" ) || { echo "patch does not apply"; exit 2; }
+mkdir -p $D/harness
+( cd /verif/harness && tar cf - --exclude=target . ) | ( cd $D/harness && tar xf - )
+sed -i "s#path = \"/repo\"#path = \"$D/repo\"#" $D/harness/Cargo.toml
 cd /verif
 for c in "$@"; do
   echo "--- $c"
-  timeout 1500 ./check "$c" --tier quick 2>&1 | grep -E "VIOLATION|KNOWN-FINDING|TOOL-ERROR|MODEL-DRIFT|witness" | head -8
+  VERIF_HARNESS=$D/harness VERIF_EVIDENCE=$D/evidence VERIF_REPLAYS=$D/replays timeout 1800 ./check "$c" --tier ${SEED_TIER:-quick} 2>&1 | grep -E "VIOLATION|KNOWN-FINDING|TOOL-ERROR|MODEL-DRIFT|witness|rror" | head -8
 done
-git -C /repo checkout -- .
-git -C /repo status --short | head -3
